@@ -4,6 +4,8 @@ Helper lemmas shared by C09 and C14: the `EditM` monad unfolded, and what the by
 `updBind` / `updSet` do to the lists the lookups read (`findBinding`, `inheritMentions`, names).
 -/
 namespace Nima
+-- name tokens are compared by spelling in this file (see `NameCmp` in Model/Edit.lean)
+attribute [local instance] NameCmp.spelled
 
 open Node EditM
 
@@ -97,7 +99,7 @@ theorem updBind_bindValue (id : Nat) (v n : Node) :
 
 theorem findBinding_updBindL (id : Nat) (v : Node) (vs : List Node) (k : Text) :
     findBinding (updBindL id v vs) k = (findBinding vs k).map (updBind id v) := by
-  simp only [findBinding, updBindL_eq_map, List.find?_map]
+  simp only [findBinding_spelled, updBindL_eq_map, List.find?_map]
   congr 2
   funext x
   simp [Function.comp]
@@ -115,7 +117,7 @@ theorem inheritMentions_updBindL (id : Nat) (v : Node) (vs : List Node) (k : Tex
 
 theorem findBinding_some {vs : List Node} {k : Text} {b : Node} (h : findBinding vs k = some b) :
     b ∈ vs ∧ b.isBind = true ∧ b.bindName? = some k := by
-  unfold findBinding at h
+  simp only [findBinding_spelled] at h
   have h1 := List.find?_some h
   have h2 := List.mem_of_find?_eq_some h
   simp only [Bool.and_eq_true, beq_iff_eq] at h1
@@ -130,7 +132,7 @@ theorem isBind_bindValue {b : Node} (h : b.isBind = true) : ∃ v, b.bindValue? 
 theorem findBinding_append_of_ne (vs : List Node) (nb : Node) (k k' : Text)
     (hnb : nb.bindName? = some k) (hk : k' ≠ k) :
     findBinding (vs ++ [nb]) k' = findBinding vs k' := by
-  unfold findBinding
+  simp only [findBinding_spelled]
   rw [List.find?_append]
   cases h : vs.find? (fun n => n.isBind && n.bindName? == some k') with
   | some b => simp
@@ -143,7 +145,7 @@ theorem findBinding_append_of_ne (vs : List Node) (nb : Node) (k k' : Text)
 theorem findBinding_append_new (vs : List Node) (nb : Node) (k : Text)
     (hb : nb.isBind = true) (hnb : nb.bindName? = some k) (hnone : findBinding vs k = none) :
     findBinding (vs ++ [nb]) k = some nb := by
-  unfold findBinding at hnone ⊢
+  simp only [findBinding_spelled] at hnone ⊢
   rw [List.find?_append, hnone]
   simp [hb, hnb]
 
